@@ -193,7 +193,7 @@ theorem congr_aux (ρ : Env K) :
   -- 12 product
   · intro side ι aux c a b iha ihb hw _ ι' hag
     simp only [WF, Bool.and_eq_true, List.isEmpty_iff] at hw
-    obtain ⟨⟨⟨wa, wb⟩, sa⟩, sb⟩ := hw
+    obtain ⟨⟨⟨⟨wa, wb⟩, sa⟩, sb⟩, _⟩ := hw
     simp only [fi] at hag
     simp only [eval]
     rw [iha wa (by simp [sa]) ι' (fun i hi => hag i (by rw [FIlemmas.has_merge, hi]; rfl)),
